@@ -5,6 +5,7 @@ mod compat;
 mod ent;
 mod replay;
 mod scen;
+mod keyhash;
 mod qosm;
 mod sim;
 mod stdtimer;
@@ -167,6 +168,10 @@ fn main() {
         "timer" => {
             let n = |k: &str, d: usize| arg(&args, k).and_then(|s| s.parse().ok()).unwrap_or(d);
             stdtimer::run(&arg(&args, "--out").expect("--out"), n("--threads", 8), n("--sleeps", 40), n("--seed", 1) as u64);
+        }
+        "keyhash" => {
+            let rep = keyhash::run_cases(&arg(&args, "--cases").expect("--cases"));
+            std::fs::write(arg(&args, "--out").expect("--out"), serde_json::to_string(&rep).unwrap()).unwrap();
         }
         "wire" => {
             let rep = wire::run_cases(&arg(&args, "--cases").expect("--cases"));
